@@ -93,6 +93,15 @@ impl MemTable {
 		}
 	}
 
+	/// Whether `batch` could be applied to an empty memtable whose arena has `arena_capacity`
+	/// bytes. A batch for which this is false can never be applied: rotating does not help.
+	pub(crate) fn can_hold(batch: &Batch, arena_capacity: usize) -> Result<bool> {
+		let sizes = batch
+			.entries_with_seq_nums()?
+			.map(|(_, entry, _, _)| (entry.key.len(), entry.value.as_ref().map_or(0, |v| v.len())));
+		Ok(skiplist::fits_empty_arena(arena_capacity.min(arena::MAX_ARENA_SIZE), sizes))
+	}
+
 	/// Sets the WAL number associated with this memtable.
 	/// This should be called when the memtable starts receiving writes
 	/// to track which WAL contains its data.
